@@ -97,11 +97,13 @@ fn gen_range(t: &mut Tape, dims: &[usize], o: &GenOpts) -> Vec<LayerSpec> {
 fn decode(tape: &[u32]) -> Case {
     let mut t = Tape::new(tape);
     let o = GenOpts { acts: &[ActK::Linear, ActK::Tanh, ActK::Sigmoid, ActK::ReLU, ActK::Leaky], max_hw: 5, allow_feedback: false, ..GenOpts::default() };
-    let input = if t.bool() { vec![t.usize(1, 3), t.usize(1, 5), t.usize(1, 5)] } else { vec![t.usize(1, 6)] };
+    // one case in 40: a flat network of width 65..300 (accumulations over long vectors)
+    let wide = t.chance(1, 40);
+    let input = if wide { vec![t.usize(65, 300)] } else if t.bool() { vec![t.usize(1, 3), t.usize(1, 5), t.usize(1, 5)] } else { vec![t.usize(1, 6)] };
     let mut layers: Vec<LayerSpec> = Vec::new();
     let mut cur = input.clone();
     // optional prefix layer
-    if t.bool() {
+    if t.bool() && !wide {
         let l = gen_layer(&mut t, &cur, true, &o, false);
         cur = model_out(&cur, &l).unwrap();
         layers.push(l);
@@ -304,7 +306,7 @@ impl Prop for C17 {
         t.pick(400_000, 30_000_000)
     }
     fn rule(&self) -> String {
-        "tape-decoded network = optional prefix layer + looped range a..b whose output shape equals the input shape of a (1-3 dense layers; 1-2 shape-preserving convolutions / deconvolutions; 1x1-kernel padding-1 convolution + 3x3 pool; 2x2 deconvolution + 2x2 pool; 2x2 pool + 2x2 deconvolution and 3x3 pool + padded 1x1 convolution, i.e. ranges that start at a max-pool); in one case of four a second loop connection over a later disjoint range (optionally one layer in between) + optional suffix (a dense layer, which makes the range output flattened, or another fitting layer); k = 1..3 (one case in five: 4..24), ordinary / small / zero weights in the range, five accumulations, input skips on/off, any accumulation configured for (absent) skip connections; distinct weights, random inputs. Oracle: o0 = R(x_a), oi = R(o(i-1) [+ x_a]), value passed on = acc(o0; o1..ok), composed from the library's own single-layer forwards (accumulations computed by the harness) (<= 2 ulp, bit-identical today); for overwrite without input skips additionally the plain network with a..b repeated k+1 times and the same weights. Non-trivial: a < b or a spatial range. Distinct = (architecture, a, b, k, accumulation, input skips).".into()
+        "tape-decoded network (one case in 40 flat with 65-300 inputs) = optional prefix layer + looped range a..b whose output shape equals the input shape of a (1-3 dense layers; 1-2 shape-preserving convolutions / deconvolutions; 1x1-kernel padding-1 convolution + 3x3 pool; 2x2 deconvolution + 2x2 pool; 2x2 pool + 2x2 deconvolution and 3x3 pool + padded 1x1 convolution, i.e. ranges that start at a max-pool); in one case of four a second loop connection over a later disjoint range (optionally one layer in between) + optional suffix (a dense layer, which makes the range output flattened, or another fitting layer); k = 1..3 (one case in five: 4..24), ordinary / small / zero weights in the range, five accumulations, input skips on/off, any accumulation configured for (absent) skip connections; distinct weights, random inputs. Oracle: o0 = R(x_a), oi = R(o(i-1) [+ x_a]), value passed on = acc(o0; o1..ok), composed from the library's own single-layer forwards (accumulations computed by the harness) (<= 2 ulp, bit-identical today); for overwrite without input skips additionally the plain network with a..b repeated k+1 times and the same weights. Non-trivial: a < b or a spatial range. Distinct = (architecture, a, b, k, accumulation, input skips).".into()
     }
     fn run_case(&self, tape: &[u32], ev: &mut CaseEv) -> CheckResult {
         check(&decode(tape), ev)
